@@ -63,7 +63,6 @@ const (
 	idGov      = 11
 	idEth0     = 20
 	nEth       = 3
-	priceUnibi = 1 // unibi per gas
 )
 
 type node struct {
@@ -73,8 +72,11 @@ type node struct {
 	T     string `json:"t,omitempty"`
 	Nonce int    `json:"nonce,omitempty"`
 	Gas   int    `json:"gas,omitempty"`
-	Bad   bool   `json:"bad,omitempty"` // eth: tampered signature
-	As    *int   `json:"as,omitempty"`  // eth: actor whose address is written into the unsigned From field
+	Price string `json:"price,omitempty"` // eth (legacy tx): gas price in wei ("" = 10^12 = 1 unibi)
+	Cap   string `json:"cap,omitempty"`   // eth (dynamic-fee tx when set): gas fee cap in wei
+	Tip   string `json:"tip,omitempty"`   // eth (dynamic-fee tx): gas tip cap in wei
+	Bad   bool   `json:"bad,omitempty"`   // eth: tampered signature
+	As    *int   `json:"as,omitempty"`    // eth: actor whose address is written into the unsigned From field
 	G     int    `json:"g,omitempty"`
 	C     []node `json:"c,omitempty"`
 }
@@ -218,7 +220,7 @@ var typeURL = map[string]string{
 
 type built struct {
 	hashes []string // eth tx hashes in pre-order
-	fee    int64    // Σ gas × price over TOP-LEVEL eth leaves (unibi)
+	fee    *big.Int // Σ ⌊gas × effective price / 10^12⌋ over TOP-LEVEL eth leaves (unibi)
 	gas    uint64
 }
 
@@ -230,8 +232,35 @@ func (w *world) build(n node, top bool, b *built) (sdk.Msg, error) {
 			return nil, fmt.Errorf("eth from %d", n.From)
 		}
 		to := w.ethSink
-		msg, err := w.c.SignEth(w.eths[i], &evm.EvmTxArgs{Nonce: uint64(n.Nonce), GasLimit: uint64(n.Gas),
-			GasPrice: big.NewInt(priceUnibi * 1_000_000_000_000), To: &to, Amount: big.NewInt(1_000_000_000_000)})
+		args := &evm.EvmTxArgs{Nonce: uint64(n.Nonce), GasLimit: uint64(n.Gas), To: &to, Amount: big.NewInt(1_000_000_000_000)}
+		base := big.NewInt(1_000_000_000_000) // evm.BASE_FEE_WEI, written out: the harness prices independently of the code
+		var eff *big.Int
+		if n.Cap != "" {
+			cp, ok1 := new(big.Int).SetString(n.Cap, 10)
+			tip, ok2 := new(big.Int).SetString(n.Tip, 10)
+			if !ok1 || !ok2 {
+				return nil, fmt.Errorf("bad cap/tip")
+			}
+			args.GasFeeCap, args.GasTipCap = cp, tip
+			eff = new(big.Int).Add(base, tip)
+			if eff.Cmp(cp) > 0 {
+				eff = new(big.Int).Set(cp)
+			}
+		} else {
+			pr := new(big.Int).Set(base)
+			if n.Price != "" {
+				var ok bool
+				if pr, ok = new(big.Int).SetString(n.Price, 10); !ok {
+					return nil, fmt.Errorf("bad price")
+				}
+			}
+			args.GasPrice = pr
+			eff = new(big.Int).Set(pr)
+		}
+		if eff.Cmp(base) < 0 {
+			eff = base
+		}
+		msg, err := w.c.SignEth(w.eths[i], args)
 		if err != nil {
 			return nil, err
 		}
@@ -259,7 +288,8 @@ func (w *world) build(n node, top bool, b *built) (sdk.Msg, error) {
 		}
 		b.hashes = append(b.hashes, msg.AsTransaction().Hash().Hex())
 		if top {
-			b.fee += int64(n.Gas) * priceUnibi
+			f := new(big.Int).Mul(eff, big.NewInt(int64(n.Gas)))
+			b.fee.Add(b.fee, f.Quo(f, base))
 			b.gas += uint64(n.Gas)
 		}
 		return msg, nil
@@ -355,7 +385,7 @@ func (w *world) runTx(tx txIn) txObs {
 	c.BeginBlock(5 * time.Second)
 	before := w.snapshot()
 	o := txObs{Fired: []int{}, Eth: []accObs{}}
-	b := &built{}
+	b := &built{fee: new(big.Int)}
 	msgs, err := w.buildAll(tx.Msgs, true, b)
 	var r abci.ResponseDeliverTx
 	if err != nil {
@@ -370,8 +400,8 @@ func (w *world) runTx(tx txIn) txObs {
 		}
 		fee, gas := Unibi(1_000_000), uint64(40_000_000)
 		if tx.Ext == "evm" {
-			fee, gas = Unibi(b.fee), b.gas
-			if b.fee == 0 {
+			fee, gas = sdk.NewCoins(sdk.NewCoin("unibi", sdkmath.NewIntFromBigInt(b.fee))), b.gas
+			if b.fee.Sign() == 0 {
 				fee = sdk.NewCoins()
 			}
 		}
@@ -462,8 +492,20 @@ func (g *gen) ethLeaf(from int) node {
 	case 4:
 		n.Bad = true
 	}
-	if g.r.Chance(1, 4) && n.Gas == 21000 {
-		n.Gas = 50000 // leftover gas to refund
+	if g.r.Chance(2, 5) && n.Gas == 21000 {
+		n.Gas = []int{50000, 30000, 100000, 250000}[g.r.Intn(4)] // leftover gas to refund
+	}
+	// gas price: mostly NOT a whole number of unibi (10^12 wei) per gas; legacy or dynamic-fee
+	if !n.Bad {
+		switch g.r.Pick(5, 7, 4) {
+		case 1:
+			n.Price = []string{"1999999999999", "1000000000001", "1500000000000", "3000000000007", "12345678901234",
+				"2000000000000", "999999999999", "1000000000000"}[g.r.Intn(8)]
+		case 2:
+			ct := [][2]string{{"5000000000000", "1"}, {"1999999999999", "999999999999"}, {"2500000000001", "999999999999"},
+				{"1000000000000", "0"}, {"7000000000000", "2000000000003"}, {"1000000000001", "5"}}[g.r.Intn(6)]
+			n.Cap, n.Tip = ct[0], ct[1]
+		}
 	}
 	return n
 }
@@ -694,6 +736,12 @@ func openers() []caseIn {
 		// deep chains: exec^8 / exec^12 around somebody else's Ethereum message, with and without the From field
 		{Txs: []txIn{evm(eth(20, 0)), cos(1, chain(8, 1, eth(20, 0))), cos(1, chain(12, 1, ethAs(1, 20, 0))), cos(0, wa(chain(6, idContract, ethAs(idContract, 20, 0)))),
 			{Key: "eth", Signer: 20, Msgs: []node{chain(9, 20, eth(20, 1))}}, evm(eth(20, 1))}},
+		// gas prices that are not whole unibi per gas, generous gas limits, several payers in one transaction
+		{Txs: []txIn{evm(node{K: "eth", From: 20, Nonce: 0, Gas: 30000, Price: "1999999999999"}),
+			evm(node{K: "eth", From: 20, Nonce: 1, Gas: 21000, Price: "3000000000000"}, node{K: "eth", From: 21, Nonce: 0, Gas: 100000, Price: "1999999999999"}),
+			evm(node{K: "eth", From: 22, Nonce: 0, Gas: 250000, Cap: "5000000000000", Tip: "999999999999"}, node{K: "eth", From: 20, Nonce: 2, Gas: 50000, Price: "1000000000001"},
+				node{K: "eth", From: 21, Nonce: 1, Gas: 21000, Cap: "1999999999999", Tip: "999999999999"}),
+			evm(node{K: "eth", From: 20, Nonce: 3, Gas: 100000, Price: "999999999999"}), cos(1, ex(1, ex(1, node{K: "eth", From: 20, Nonce: 0, Gas: 100000, Price: "1999999999999"})))}},
 		// extension-option routing with the wrong content
 		{Txs: []txIn{{Ext: "evm", Key: "cosmos", Signer: 1, Msgs: []node{{K: "send", From: 1}}}, {Ext: "evm", Key: "none", Signer: -1, Msgs: []node{eth(20, 0), {K: "send", From: 1}}},
 			{Ext: "other", Key: "none", Signer: -1, Msgs: []node{eth(20, 0)}}, {Ext: "other", Key: "cosmos", Signer: 1, Msgs: []node{{K: "send", From: 1}}},
